@@ -110,6 +110,7 @@ theorem legacy_digest_pure (sha256 : Bytes → Bytes) (T : Tables) (h : H) (hcl 
     (hs : self < h.length) (hcode : code < h.length) (i ht : Nat) (h' : H) (d : Bytes)
     (hd : legacyDigestH sha256 T h self i code ht = .ok (h', d)) :
     h'.length ≥ h.length ∧ (∀ x, x < h.length → h'[x]? = h[x]?) ∧ viewTx h' self = viewTx h self := by
+  have _ := hcode  -- (not needed: the caller's script is only referenced, never read)
   obtain ⟨tmp, ws, hp⟩ := HeapLemmas.legacyDigestH_ok hd
   obtain ⟨ext, rfl⟩ := HeapLemmas.prepare_ext hp
   exact ⟨by simp, fun x hx => HeapLemmas.get_ext_lt ext hx, HeapLemmas.viewTx_ext_closed hcl hs ext⟩
@@ -119,7 +120,19 @@ theorem legacy_digest_value (sha256 : Bytes → Bytes) (T : Tables) (h : H) (hcl
     (hs : self < h.length) (hcode : code < h.length) (i ht : Nat) (t : Tx) (toks : List Tok)
     (ht' : viewTx h self = some t) (hcv : viewScript h code = some toks) :
     (legacyDigestH sha256 T h self i code ht).map (·.2) = legacyDigest sha256 T t i toks ht := by
-  sorry
+  have _ := hcl; have _ := hs; have _ := hcode  -- (not needed: the two view hypotheses suffice)
+  rw [HeapLemmas.legacyDigestH_eq, HeapLemmas.legacyDigest_eq]
+  have hsim := HeapLemmas.prepare_sim (i := i) (ht := ht) ht' hcv
+  cases hp : legacyDigestPrepare h self i code ht with
+  | error e =>
+    rw [hp] at hsim
+    simp only at hsim ⊢
+    rw [hsim]
+  | ok p =>
+    obtain ⟨h', tmp, ws⟩ := p
+    rw [hp] at hsim
+    obtain ⟨tm, hm, hv⟩ := hsim
+    simp only [hm, hv]
 
 /-! ## (2) order independence -/
 
